@@ -18,7 +18,8 @@ RULE = ('(a) generated (query, molecule) pairs: query atoms/bonds from the C08 p
         'isotopes + unspecified x charge -4..+4 x radical with exact and one-attribute-off (near-miss) queries; neighbour/heteroatom '
         'counts 0-14 on star scaffolds, hydrogens 0-4, hybridisation 1-4, ring sizes 3-66 and 70 on carbocycles. oracle: '
         'set(get_mapping(_cython=True)) == set(get_mapping(_cython=False)). non-trivial = reference set non-empty or the pair is a '
-        'near-miss; distinct by (query, molecule)')
+        'near-miss; distinct by (query, molecule)'
+        '; also: in-place remap / add_atom / add_bond on a target that was already searched; Cl-X pair sweep.')
 ASSUMPTIONS = ['compiled matcher = _isomorphism.pyx run by vf/pyxlite.py with C integer semantics and bounds-checked pointers; '
                'compiler-level effects are out of reach',
                'documented exclusions are counted and skipped: Lv/Ts/Og treated as equal in compiled mode, rings > 65 atoms ring-free']
